@@ -30,6 +30,9 @@ def run(ctx):
                       "round_trip", "evaluate_with", "set_objective", "evaluate"])
     runlib.run_templates(ctx, ["C05"], seeds=[ctx.seed, ctx.seed + 1] if q else list(range(ctx.seed, ctx.seed + 12)),
                          iters=[3] if q else [1, 8, 30])
+    # differential evolution with several difference vectors on clamped (coinciding) individuals needs a few passes
+    runlib.run_templates(ctx, ["C05"], seeds=list(range(ctx.seed, ctx.seed + (4 if q else 12))), iters=[12] if q else [12, 40],
+                         name="de-runs", templates=["real_de"])
     # every shipped variation component on evaluated parents (odd / even parent counts, crossover probabilities,
     # insert-single / insert-both), observed after each component
     runlib.run_templates(ctx, ["C05"], seeds=[ctx.seed, ctx.seed + 1] if q else list(range(ctx.seed, ctx.seed + 10)),
